@@ -80,7 +80,8 @@ var ops = []opInfo{
 	{"postThing", "POST", "/things/{id}", true, "optional-K1"},
 	{"putThing", "PUT", "/things/{id}", true, "K2"},
 	{"open", "GET", "/open/{id}", false, "none"},
-	{"bulk", "POST", "/bulk", true, "none"}, // parameter-less route, body admitted through a wildcard entry
+	{"bulk", "POST", "/bulk", true, "none"},                    // parameter-less route, body admitted through a wildcard entry
+	{"status", "GET", "/status", false, "K1-read-or-K2-admin"}, // declares no parameter at all; its alternatives carry different scopes
 }
 
 func buildDoc() (*loads.Document, error) {
@@ -105,6 +106,8 @@ func buildDoc() (*loads.Document, error) {
 				Params: []simapi.Param{{Name: "id", In: "path", Type: "string"}, {Name: "q", In: "query", Type: "string"}, hdr}},
 			{Method: "POST", Path: "/bulk", ID: "bulk", Consumes: []string{"application/*"}, Produces: []string{"application/json", "text/plain; charset=utf-8"},
 				Params: []simapi.Param{{Name: "q", In: "query", Type: "string"}, hdr, {Name: "payload", In: "body", Required: true}}},
+			{Method: "GET", Path: "/status", ID: "status",
+				Security: sec(map[string][]string{"K1": {"read"}}, map[string][]string{"K2": {"admin"}})},
 		}}
 	return api.Doc()
 }
@@ -194,6 +197,12 @@ func buildServer(doc *loads.Document, n int, point func(), plans []reqPlan, salt
 	u.RegisterAuth("K1", mkAuth("K1", "X-Key-1"))
 	u.RegisterAuth("K2", mkAuth("K2", "X-Key-2"))
 	u.RegisterAuthorizer(&simapi.Authorizer{W: world, OnCall: point, Decide: func(i int, r *http.Request, _ any) error {
+		// a scheme-aware authorizer looks at which alternative admitted the request
+		if mr := middleware.MatchedRouteFrom(r); mr != nil && mr.Authenticator != nil && i >= 0 && i < len(world.Slots) {
+			sch := append([]string(nil), mr.Authenticator.Schemes...)
+			sort.Strings(sch)
+			world.Slots[i].AuthzSaw = fmt.Sprintf("admitted-by=%v scopes=%v", sch, mr.Authenticator.AllScopes())
+		}
 		if r.Header.Get("X-Deny") != "" {
 			return errors.New(403, "denied %s", r.Header.Get("X-Deny"))
 		}
@@ -282,7 +291,7 @@ func slotDigest(s *simapi.Obs) string {
 		keys = append(keys, fmt.Sprintf("%s=%v", k, v))
 	}
 	sort.Strings(keys)
-	return fmt.Sprintf("auth=%v authz=%d princ=%v consumers=%v producers=%v handler=%d/%s bound=%v", s.AuthCalls, s.AuthzCalls, s.AuthzPrinc, s.Consumers, s.Producers, s.HandlerRan, s.HandlerOp, keys)
+	return fmt.Sprintf("auth=%v authz=%d(%s) princ=%v consumers=%v producers=%v handler=%d/%s bound=%v", s.AuthCalls, s.AuthzCalls, s.AuthzSaw, s.AuthzPrinc, s.Consumers, s.Producers, s.HandlerRan, s.HandlerOp, keys)
 }
 
 // serveFull: flow A.
@@ -309,7 +318,7 @@ func ownCheck(p *reqPlan, s *simapi.Obs, status int, respBody string) string {
 		if got := fmt.Sprint(s.Bound["id"]); got != p.id && strings.Contains(ops[p.op].tmpl, "{id}") {
 			bad = append(bad, fmt.Sprintf("path value id=%q, own is %q", got, p.id))
 		}
-		if got := fmt.Sprint(s.Bound["q"]); got != p.q {
+		if got := fmt.Sprint(s.Bound["q"]); got != p.q && ops[p.op].id != "status" {
 			bad = append(bad, fmt.Sprintf("query q=%q, own is %q", got, p.q))
 		}
 		if ops[p.op].hasBody {
@@ -333,7 +342,8 @@ func ownCheck(p *reqPlan, s *simapi.Obs, status int, respBody string) string {
 			bad = append(bad, fmt.Sprintf("consumer %s decoded a %q body", c, p.ctype))
 		}
 	}
-	if status >= 200 && status < 300 && respBody != "" && !strings.Contains(respBody, fmt.Sprintf("req:%d", p.idx)) && !strings.Contains(respBody, fmt.Sprintf(`"req":%d`, p.idx)) {
+	// (the handler of the parameter-less operation is handed nothing it could tell requests apart by)
+	if ops[p.op].id != "status" && status >= 200 && status < 300 && respBody != "" && !strings.Contains(respBody, fmt.Sprintf("req:%d", p.idx)) && !strings.Contains(respBody, fmt.Sprintf(`"req":%d`, p.idx)) {
 		bad = append(bad, fmt.Sprintf("response %q is not the one of request %d", respBody, p.idx))
 	}
 	return strings.Join(bad, "; ")
